@@ -652,6 +652,22 @@ Theorem C04_gap_step_refuted :
 Proof. exact gap_step_refuted. Qed.
 Print Assumptions C04_gap_step_refuted.
 
+(* ... and for sequences WITHOUT gap characters and any step > 0 the gap-aware subscript is the plain one (the second
+   witness above shows that this stops at negative steps) *)
+Theorem C04_gap_free_positive_step : forall g s sl, (forall c, In c (data s) -> in_gap g c = false) ->
+  match sl_step sl with None => True | Some k => 0 < k end ->
+  seq_getitem (Some g) s (ISlice sl) = seq_getitem None s (ISlice sl).
+Proof. exact gap_free_positive_step. Qed.
+Print Assumptions C04_gap_free_positive_step.
+
+(* subscripts commute with upper(): the subscript of a sequence holding lower case is the str subscript of the
+   upper-cased residue string, i.e. what the sequence constructed from the same residues gives *)
+Theorem C04_slice_lower_is_slice_of_upper : forall s ix,
+  seq_getitem None s ix = match pyget (py_upper (data s)) ix with Ok r => Ok (mkseq r (sid s)) | Err e => Err e end /\
+  seq_getitem None s ix = seq_getitem None (new_seq (data s) (sid s)) ix.
+Proof. exact slice_lower_is_slice_of_upper. Qed.
+Print Assumptions C04_slice_lower_is_slice_of_upper.
+
 (* ---- non-vacuity ---- *)
 Example C04_witness_slice : getslice (bs "A-CG--T"%bs) (mkslice (Some (-5)) (Some 9) None) = Ok (bs "CG--T"%bs) /\
   getslice (bs "ACGTN"%bs) (mkslice (Some 9) (Some (-9)) (Some (-2))) = Ok (bs "NGA"%bs) /\
